@@ -42,6 +42,18 @@ CHECKS = {
                      "two-argument grids for div_ceil/round_up/abs_diff, all against naive/128-bit references, intrinsic overloads vs generic templates; Aggregate: "
                      "every pair of operands built from value lists of length 0..3 combined with + and += in both orders vs one Aggregate fed all values.",
                 note="reference in __int128 / naive bit loops; results compared only where representable and the argument is in the documented domain"),
+    "C09": dict(engine="venum", technique=E3 + " (every replace-the-winner history of every key assignment, driven to exhaustion)", design="4/C09",
+                text="For each of the 8 loser tree classes, k in 1..9 players and every assignment of (unsorted) key sequences of length 0..3 over 3 keys "
+                     "within a total-keys bound (7 quick / 9 thorough), the full replace history is driven to exhaustion on the real tree; after init() and "
+                     "after every delete_min_insert() the winner must be live, minimal among live players and (stable variants) of smallest index among ties. "
+                     "Unguarded variants are driven only within their documented contract (no player runs out; sentinel >= all keys). ~4.8e8 histories quick.",
+                note="comparators less and greater on a (key,tag) struct; key alphabet of 3; k <= 9"),
+    "C12": dict(engine="vhist+vsched", technique=E2 + " for the sequential histories; " + E1 + " for the concurrent part", design="4/C12",
+                text="Sequential: BFS closure (frontier empty) over every history of construct/copy/move/assign (all ordered pairs incl. self and aliases)/"
+                     "converting/reset/swap/unify/destroy on 4 handle variables; in every state use_count == number of handles, destructor log exact, ASan. "
+                     "Concurrent: every multiset of 2-3 thread scripts copying/moving/dropping private handles to one shared object, every interleaving "
+                     "within the preemption bound, ASan build (use-after-free, assert in ~ReferenceCounter, destroyed exactly once) and TSan build (payload races).",
+                note="SC interleavings; preemption bound 2-3 (2 threads) / 1-2 (3 threads); handle variables themselves are thread-private as documented"),
 }
 
 NA = {}
